@@ -95,11 +95,10 @@ func fmtValue(fr *frame, a value, verb byte, strict bool) value {
 			return "<nil>"
 		}
 		if verb == 'v' || verb == 's' || verb == 'q' {
-			if m := findMethod(fr.i, ifc.t, "Error"); m != nil {
-				return quoteIf(verb, call(fr.i, fr, 0, m, []value{ifc.v}))
-			}
-			if m := findMethod(fr.i, ifc.t, "String"); m != nil {
-				return quoteIf(verb, call(fr.i, fr, 0, m, []value{ifc.v}))
+			for _, mn := range []string{"Error", "String"} {
+				if m := findMethod(fr.i, ifc.t, mn); m != nil {
+					return quoteIf(verb, callLenient(fr, m, ifc.v, strict))
+				}
 			}
 		}
 		if verb == 'T' {
@@ -158,6 +157,23 @@ func fmtValue(fr *frame, a value, verb byte, strict bool) value {
 		return "<nil>"
 	}
 	return fmt.Sprintf("<%T>", a)
+}
+
+// callLenient calls a String/Error method; in non-strict (error message) mode an
+// unsupported operation inside it yields a placeholder instead of aborting the path.
+func callLenient(fr *frame, m *ssa.Function, recv value, strict bool) (out value) {
+	if !strict {
+		defer func() {
+			if r := recover(); r != nil {
+				if _, ok := r.(unsupportedAbort); ok {
+					out = "<sym>"
+					return
+				}
+				panic(r)
+			}
+		}()
+	}
+	return call(fr.i, fr, 0, m, []value{recv})
 }
 
 func quoteIf(verb byte, s value) value {
